@@ -20,8 +20,9 @@ static void corpus(hz::Ctx &ctx, hz::Rng &rng, size_t per_form, const std::funct
         else if (is_mem_slot(s)) it.ops.push_back(mem_for_slot(sh[rng.below(sh.size())], s, r.size, r.f->kw, rng.coin()));
         else if (is_imm_slot(s)) {
           char pol = imm_policy(s); int space = imm_space(s, r.size); int w = s == "I8" ? 8 : (s == "IPUSH" ? 64 : r.size);
-          auto sps = imm_spellings(w, pol, rng, 2, false); if (sps.empty()) { bad = true; break; }
-          auto &sp = sps[rng.below(sps.size())]; it.ops.push_back(wimm(sp.v, space, sp.hex, sp.neg, sp.pad));
+          auto sps = imm_spellings(w, pol, rng, 2, true); if (sps.empty()) { bad = true; break; }
+          auto sp = sps[rng.below(sps.size())]; if (sp.hex && !sp.neg && rng.below(6) == 0) sp.pad = 16;   // a 16-digit literal means something only for mov r64, imm
+          it.ops.push_back(wimm(sp.v, space, sp.hex, sp.neg, sp.pad));
         } else { auto c = reg_candidates(s, r.size); if (c.empty()) { bad = true; break; } it.ops.push_back(c[rng.below(c.size())]); }
       }
       if (bad || !encodable(it)) continue;
@@ -142,7 +143,7 @@ void prop_c11(hz::Ctx &ctx) {
       Intent it = base_intent(r); bool bad = false;
       for (auto &s : r.slots) {
         if (is_mem_slot(s)) it.ops.push_back(mem_for_slot(sh[si], s, r.size, r.f->kw, (si & 1) != 0));
-        else if (is_imm_slot(s)) it.ops.push_back(wimm(imm_policy(s) == 'U' ? 3 : 5, imm_space(s, r.size), true));
+        else if (is_imm_slot(s)) { static const int PADS[] = {0, 0, 1, 8, 15, 16, 16, 17}; it.ops.push_back(wimm(imm_policy(s) == 'U' ? 3 : 5, imm_space(s, r.size), true, false, PADS[(si + sh.size()) % 8 == 0 ? 5 : (si * 3) % 8])); }
         else { auto c = reg_candidates(s, r.size); if (c.empty()) { bad = true; break; } WOpd o = c[rng.below(c.size())]; if (o.high8) { o.high8 = false; o.reg &= 3; } it.ops.push_back(o); }
       }
       if (bad || !encodable(it)) continue;
@@ -252,18 +253,21 @@ static SpV check_spelling(const Intent &it, int combo, uint64_t styleseed) {
 // programs with blank / comment / label / directive lines inserted at every position, LF vs CRLF
 static SpV check_program_noise(const std::vector<std::string> &lines, int combo, uint64_t seed, std::string *prog_out) {
   SpV v; hz::Rng rng(seed);
-  static const char *NOISE[] = {"", "   ", "; a comment", "label:", "  loop_1:  ; with comment", "section .text", "global _start", "%define X 5", "SECTION .data", "\t; indented comment", "GLOBAL main", "%macro foo 0", ".L1:"};
+  static const char *NOISE[] = {"", "   ", "; a comment", "label:", "  loop_1:  ; with comment", "section .text", "global _start", "%define X 5", "SECTION .data", "\t; indented comment", "GLOBAL main", "%macro foo 0", ".L1:", "done: ", "top:\t", "loop: ; top of the loop", "a1: ;", "end:   ;;; x", "  exit:"};
   bool crlf = rng.coin(); std::string nl = crlf ? "\r\n" : "\n";
   std::string canon, noisy; size_t pos = rng.below(lines.size() + 1); bool everywhere = rng.below(3) == 0;
   for (size_t i = 0; i <= lines.size(); i++) {
-    if (everywhere || i == pos) { int k = 1 + (int)rng.below(2); for (int j = 0; j < k; j++) noisy += std::string(NOISE[rng.below(13)]) + nl; }
+    if (everywhere || i == pos) { int k = 1 + (int)rng.below(2); for (int j = 0; j < k; j++) noisy += std::string(NOISE[rng.below(19)]) + nl; }
     if (i < lines.size()) { canon += lines[i] + "\n"; noisy += lines[i] + nl; }
   }
   if (rng.coin() && !noisy.empty()) { // final line without terminator
     while (!noisy.empty() && (noisy.back() == '\n' || noisy.back() == '\r')) noisy.pop_back();
   }
   if (prog_out) *prog_out = noisy;
-  al::Result a = al::assemble(canon, combo, 4096), b = al::assemble(noisy, combo, 4096);
+  // half of the programs run in a caller buffer that the code fills up to the documented 20-byte reserve exactly:
+  // lines that emit nothing must not need any room
+  int nbuf = 4096; { al::Result probe = al::assemble(canon, combo, 4096); if (probe.rc == 0 && (seed & 8)) nbuf = (int)probe.bytes.size() + 20 - (int)std::min<size_t>(probe.bytes.size(), (seed >> 4) % 3); if (nbuf < 20) nbuf = 20; }
+  al::Result a = al::assemble(canon, combo, nbuf), b = al::assemble(noisy, combo, nbuf);
   if (a.rc != b.rc || a.bytes != b.bytes) { v.ok = false; v.symptom = a.rc != b.rc ? "return-code" : "bytes"; v.detail = "program with inserted non-code lines" + std::string(crlf ? " (CRLF)" : "") + " differs: rc " + std::to_string(a.rc) + " vs " + std::to_string(b.rc) + ", " + std::to_string(a.bytes.size()) + " vs " + std::to_string(b.bytes.size()) + " bytes"; }
   return v;
 }
